@@ -388,7 +388,7 @@ def correspond(ctx):
 
 STREAMS = {
   'main': dict(weights={'addreverse': 9, 'refupd': 18, 'refswitch': 5, 'unlink': 2, 'rmreferenced': 6, 'refadd': 8,
-                        'addref': 6, 'rmrec': 6}, undo_prob=0.1),
+                        'addref': 6, 'rmrec': 6, 'rencol': 4, 'rentable': 3}, undo_prob=0.1),
   'dup': dict(weights={'addreverse': 9, 'dupupd': 9, 'refupd': 6}, undo_prob=0.0),
   'both': dict(weights={'addreverse': 9, 'bothsides': 12, 'refupd': 6, 'addref': 9}, undo_prob=0.0),
   'replace': dict(weights={'addreverse': 9, 'replacedata': 7, 'refupd': 10}, undo_prob=0.0),
